@@ -136,9 +136,12 @@ func (st *PacketServer) acceptConnection() {
 		// Even though the connection might be secured by an AES-encrypted symmetric ciper, we
 		// state here "secure=false" to enable the client to provide StartTLS and do a potential
 		// host check and/or identify itself with a client certificate
-		if err = AcceptConnection(conn, &st.ServerConfig, false, st.upstreams); err != nil {
-			log.WithError(err).Errorf("Error accepting connection: %v", err)
-		}
+		// The handshake runs off the accept loop: a peer that stalls delays only its own session
+		go func(conn net.Conn) {
+			if err := AcceptConnection(conn, &st.ServerConfig, false, st.upstreams); err != nil {
+				log.WithError(err).Errorf("Error accepting connection: %v", err)
+			}
+		}(conn)
 	}
 }
 
